@@ -66,6 +66,10 @@ func (h *Handler) ignoreFields(oldPodGroup, newPodGroup *schedulingv2alpha2.PodG
 	newPodGroupCopy.Spec.MarkUnschedulable = oldPodGroup.Spec.MarkUnschedulable
 	newPodGroupCopy.Spec.SchedulingBackoff = oldPodGroup.Spec.SchedulingBackoff
 	newPodGroupCopy.Spec.Queue = oldPodGroup.Spec.Queue
+	if len(newPodGroupCopy.Spec.SubGroups) == 0 && len(oldPodGroup.Spec.SubGroups) == 0 {
+		// the API server does not store an empty list: compare like with like
+		newPodGroupCopy.Spec.SubGroups = oldPodGroup.Spec.SubGroups
+	}
 
 	if newPodGroupCopy.Labels == nil {
 		newPodGroupCopy.Labels = map[string]string{}
